@@ -71,3 +71,5 @@ func TestC07(t *testing.T) { runMachine(t, CfgC07) }
 
 func TestC09(t *testing.T) { runMachine(t, CfgC09) }
 func TestC10(t *testing.T) { runMachine(t, CfgC10) }
+
+func TestC16Pipeline(t *testing.T) { runMachine(t, CfgC16) }
